@@ -95,6 +95,42 @@ def _pexpr(node, value):
     raise TranslationError(REL, node, 'unrecognised _parse result `%s`' % ast.unparse(node))
 
 
+def _inline_clause_locals(clause, reserved):
+    """`[<local> = <expr>]* ; return <expr>` -> the returned expression with every local replaced by its value.  Each local is a fresh
+    name bound once and read exactly once (so no value is duplicated or dropped); the result is then validated by _pexpr, which only
+    accepts reads of the argument (attribute reads, `.tolist()` copies) -- pure, so the order in which they are evaluated is immaterial."""
+    body = clause.body
+    if not body or not isinstance(body[-1], ast.Return) or body[-1].value is None:
+        raise TranslationError(REL, clause, 'a clause must end in `return <expr>`')
+    env = {}
+    for st in body[:-1]:
+        name = st.targets[0].id if isinstance(st, ast.Assign) and len(st.targets) == 1 and isinstance(st.targets[0], ast.Name) else None
+        if name is None or name in reserved or name in env:
+            raise TranslationError(REL, st, 'a clause must be single-assignment local bindings followed by `return <expr>`')
+        env[name] = st.value
+    used = {}
+
+    class Sub(ast.NodeTransformer):
+        def visit_Name(self, n):
+            if isinstance(n.ctx, ast.Load) and n.id in env:
+                used[n.id] = used.get(n.id, 0) + 1
+                return self.visit(env[n.id])
+            return n
+
+        def visit_ListComp(self, n):
+            for g in n.generators:
+                for x in ast.walk(g.target):
+                    if isinstance(x, ast.Name) and x.id in env:
+                        raise TranslationError(REL, n, 'comprehension variable shadows a local')
+            return self.generic_visit(n)
+    import copy as _copy
+    ret = Sub().visit(_copy.deepcopy(body[-1].value))
+    for name in env:
+        if used.get(name, 0) != 1:
+            raise TranslationError(REL, clause, 'local `%s` of a _parse clause must be read exactly once' % name)
+    return ret
+
+
 def parse_clauses(cls, src, items):
     fn = find_func(cls, '_parse')
     if fn is None:
@@ -126,10 +162,9 @@ def parse_clauses(cls, src, items):
                 and isinstance(t.left, ast.Name) and t.left.id == keyv
                 and isinstance(t.comparators[0], ast.Constant) and isinstance(t.comparators[0].value, str)):
             raise TranslationError(REL, cur, 'expected `%s == <literal>`' % keyv)
-        if len(cur.body) != 1 or not isinstance(cur.body[0], ast.Return) or cur.body[0].value is None:
-            raise TranslationError(REL, cur, 'a clause must be a single `return <expr>`')
-        clauses.append((t.comparators[0].value, _pexpr(cur.body[0].value, valv)))
-        items.append({'file': REL, 'line': cur.body[0].lineno, 'text': '%s: %s' % (src_of(src, t), src_of(src, cur.body[0]))})
+        ret = _inline_clause_locals(cur, (keyv, valv, 'self'))
+        clauses.append((t.comparators[0].value, _pexpr(ret, valv)))
+        items.append({'file': REL, 'line': cur.body[-1].lineno, 'text': '%s: return %s' % (src_of(src, t), ast.unparse(ret))})
         if not cur.orelse:
             break
         if len(cur.orelse) == 1 and isinstance(cur.orelse[0], ast.If):
@@ -324,15 +359,21 @@ def _raise_lib(stmts, ealias, index, arr):
 
 
 def _gterm(node, index, arr):
-    if _call(node, 'len', 1) and _is_name(node.args[0], index):
-        return 'TLenIndex'
-    if isinstance(node, ast.Attribute) and node.attr == 'ndim' and _is_name(node.value, arr):
-        return 'TNdim (0)'
+    """-> ('N', c) for <arr>.ndim + c, ('L', c) for len(index) + c   (Python ints: exact)"""
+    def base(n):
+        if _call(n, 'len', 1) and _is_name(n.args[0], index):
+            return 'L'
+        if isinstance(n, ast.Attribute) and n.attr == 'ndim' and _is_name(n.value, arr):
+            return 'N'
+        return None
+    if base(node):
+        return base(node), 0
     if isinstance(node, ast.BinOp) and isinstance(node.op, (ast.Sub, ast.Add)) and isinstance(node.right, ast.Constant) \
-            and type(node.right.value) is int and isinstance(node.left, ast.Attribute) and node.left.attr == 'ndim' \
-            and _is_name(node.left.value, arr):
-        c = node.right.value if isinstance(node.op, ast.Add) else -node.right.value
-        return 'TNdim (%d)' % c
+            and type(node.right.value) is int and base(node.left):
+        return base(node.left), (node.right.value if isinstance(node.op, ast.Add) else -node.right.value)
+    if isinstance(node, ast.BinOp) and isinstance(node.op, ast.Add) and isinstance(node.left, ast.Constant) \
+            and type(node.left.value) is int and base(node.right):
+        return base(node.right), node.left.value
     raise TranslationError(REL, node, 'unrecognised term `%s` in the size test' % ast.unparse(node))
 
 
@@ -377,9 +418,13 @@ def get_descr(cls, tree, src, items):
                 exc, msg = _raise_lib(s.body, ealias, index, arr)
                 out.append('GGuardNotTuple %s [%s]' % (exc, '; '.join(msg)))
             elif isinstance(t, ast.Compare) and len(t.ops) == 1 and type(t.ops[0]) in CMP and stage == 1:
-                lt, rt, op = _gterm(t.left, index, arr), _gterm(t.comparators[0], index, arr), CMP[type(t.ops[0])]
-                if lt == 'TLenIndex' and rt != 'TLenIndex':      # canonical orientation: the array's term on the left
-                    lt, rt, op = rt, lt, CMP_SWAP[op]
+                (lk, lc), (rk, rc), op = _gterm(t.left, index, arr), _gterm(t.comparators[0], index, arr), CMP[type(t.ops[0])]
+                if lk == 'L' and rk == 'N':      # canonical orientation: the array's term on the left
+                    lk, lc, rk, rc, op = rk, rc, lk, lc, CMP_SWAP[op]
+                if not (lk == 'N' and rk == 'L'):
+                    raise TranslationError(REL, s, 'the size test must compare <array>.ndim with len(%s)' % index)
+                # ndim + a OP len + b  <=>  ndim + (a - b) OP len   (integers)
+                lt, rt = 'TNdim (%d)' % (lc - rc), 'TLenIndex'
                 exc, msg = _raise_lib(s.body, ealias, index, arr)
                 out.append('GGuardSize (%s) %s %s %s [%s]' % (lt, op, rt, exc, '; '.join(msg)))
             else:
